@@ -8,7 +8,7 @@ import copy
 
 from statham.schema.constants import NotPassed
 
-from sim import gen
+from sim import common, gen
 from sim.common import HarnessError, install_validator_order, gen_perm
 from sim.world import (
     abort_site,
@@ -173,7 +173,18 @@ def gen_case(rng, force=(), forbid=()):
         "perm": perm,
         "ops": ops,
         "swarm": swarm_desc,
+        "pristine": rng.random() < 0.3,
     }
+
+
+def reference_call(world, ops, call_idx, perm):
+    """Outcome of call `call_idx` (with the chain of calls its fed argument
+    depends on) on a fresh tree in a process that never validated anything."""
+    install_validator_order(perm)
+    tree = _Tree(world)
+    value = _materialise(tree, ops, call_idx, world)
+    verdict, result, _ = attempt(live_resolve(tree.built, ops[call_idx]["path"]), value)
+    return verdict, norm(result) if verdict == "accept" else None
 
 
 # --------------------------------------------------------------------------
@@ -334,6 +345,21 @@ def exec_case(case, log, stats):
                 "op_index": idx,
                 "detail": {"live": [verdict, nres], "fresh": [fverdict, fnres]},
             }
+        if case.get("pristine"):
+            pverdict, pnres = common.pristine(
+                "sim.c08", "reference_call", world, ops, call_idx, case.get("perm")
+            )
+            stats.inc("pristine_process_references")
+            if (pverdict, pnres) != (verdict, nres):
+                return {
+                    "invariant": "fresh_differs",
+                    "op_index": idx,
+                    "detail": {
+                        "live": [verdict, nres],
+                        "pristine_process": [pverdict, pnres],
+                        "same_process_fresh_tree": [fverdict, fnres],
+                    },
+                }
         if depth >= 1:
             stats.inc("nested_target_calls")
     stats["_nontrivial"] = int(n_accept >= 1 and n_reject >= 1 and n_repeat >= 1)
